@@ -429,3 +429,108 @@ func Harness_C14_read_overlapping_change() {
 	_, _ = v1, e1
 	verif_Cover("C14.ovl.done")
 }
+
+// Removing a member of a stored index list - with a reader of the same list overlapping the
+// removal and possibly one tier write failing: every list any caller sees, during and after, is
+// one that was written (the original, or the original without the removed member); a removal that
+// reports success is in effect afterwards. Values kept by reference in a cache tier must not be
+// edited in place.
+func Harness_C14_list_remove() {
+	ctx := context.Background()
+	w := newC14World(ctx, true)
+	nd := w.nodes[0]
+	key := []string{"tunnox:client_mappings:7", "tunnox:runtime-only:list", DefaultConfig().PersistentPrefixes[0] + "l"}[verif_Choose(3)]
+	w.shared.yield, w.persist.yield, nd.local.yield = false, false, false
+	orig := []any{"a", "b", "c"}
+	verif_Assert("C14.rm.setup.set", nd.h.Set(key, []any{"a", "b", "c"}, 0) == nil)
+	for verif_PendingCount() > 0 {
+		verif_MaybeRunPending()
+	}
+	victim := []string{"a", "b", "c", "zz"}[verif_Choose(4)]
+	var want []any
+	for _, x := range orig {
+		if x != any(victim) {
+			want = append(want, x)
+		}
+	}
+	same := func(l, m []any) bool {
+		if len(l) != len(m) {
+			return false
+		}
+		for i := range l {
+			if l[i] != m[i] {
+				return false
+			}
+		}
+		return true
+	}
+	switch verif_Choose(4) { // one tier write fails - or none
+	case 1:
+		w.persist.failSet = true
+	case 2:
+		nd.local.failSet = true
+	case 3:
+		w.shared.failSet = true
+	}
+	w.shared.yield, w.persist.yield, nd.local.yield = true, true, true
+	var seen []any
+	var readErr, rmErr error
+	reader := verif_Bool()
+	if reader {
+		verif_Spawn(func() {
+			l, err := nd.h.GetList(key)
+			readErr = err
+			seen = append([]any{}, l...)
+		})
+	}
+	verif_Spawn(func() { rmErr = nd.h.RemoveFromList(key, victim) })
+	verif_Quiesce()
+	w.shared.yield, w.persist.yield, nd.local.yield = false, false, false
+	if reader && readErr == nil {
+		verif_Assert("C14.rm.reader_sees_a_written_list", same(seen, orig) || same(seen, want))
+	}
+	final, err := nd.h.GetList(key)
+	verif_Assert("C14.rm.readable", err == nil)
+	verif_Assert("C14.rm.final_is_a_written_list", same(final, orig) || same(final, want))
+	if rmErr == nil {
+		verif_Assert("C14.rm.success_in_effect", same(final, want))
+		verif_Cover("C14.rm.removed")
+	} else {
+		verif_Cover("C14.rm.failed")
+	}
+	verif_Cover("C14.rm.done")
+}
+
+// A write during which one tier fails: if it is acknowledged, every later read returns it - never
+// the older value a cache tier still holds because its own write failed; if it is refused, the
+// older value stays readable.
+func Harness_C14_write_fault() {
+	ctx := context.Background()
+	w := newC14World(ctx, false)
+	nd := w.nodes[0]
+	key, cat := c14Key()
+	verif_Assume(cat == DataCategoryPersistent || cat == DataCategorySharedPersistent)
+	verif_Assert("C14.wf.setup.set", nd.h.Set(key, int64(1), 0) == nil)
+	for verif_PendingCount() > 0 {
+		verif_MaybeRunPending()
+	}
+	if verif_Bool() { // the cache copies may be gone already
+		delete(nd.local.m, key)
+		delete(w.shared.m, key)
+	}
+	[]*c14Tier{nd.local, w.shared, w.persist}[verif_Choose(3)].failSet = true
+	cur := int64(1)
+	if err := nd.h.Set(key, int64(2), 0); err == nil {
+		cur = 2
+		verif_Cover("C14.wf.acknowledged")
+	} else {
+		verif_Cover("C14.wf.refused")
+	}
+	for _, n := range w.nodes {
+		v, err := n.h.Get(key)
+		if n == nd || cat == DataCategorySharedPersistent {
+			verif_Assert("C14.wf.read_after_write", err == nil && v == any(cur))
+		}
+	}
+	verif_Cover("C14.wf.done")
+}
